@@ -1,5 +1,5 @@
 """C04 (layering structure) and C06 (layout is a pure function of labels and options)."""
-import json
+import json, os, subprocess
 import common
 from common import Report, build_and_audit, drive, fields, rng_for, leanchecker
 import gen_layout as G
@@ -134,6 +134,56 @@ def gen_history(rng, tier):
     return ops, labelsA, o
 
 
+def fresh_process_check(trace):
+    """for each recorded compute of an interleaving: what an engine with the same options and data reports in a FRESH interpreter process;
+    returns (compute no., engine, fresh observation, observed) for the first compute that differs, or None"""
+    for j, t in enumerate(trace[:12]):
+        try:
+            pr = subprocess.run([common.PY, os.path.join(common.VERIF, "harness", "fresh_engine.py")], input=json.dumps({"opts": t["opts"], "nodes": t["nodes"]}),
+                                capture_output=True, text=True, timeout=120, env=dict(os.environ, LABELLA_REPO=common.REPO))
+        except Exception:
+            continue
+        if pr.returncode == 0 and pr.stdout.strip() != t["got"]:
+            return (j, t["engine"], pr.stdout.strip(), t["got"])
+    return None
+
+
+def concat_interleavings(opss):
+    """several interleavings one after the other as ONE interleaving (engine and list numbers shifted)"""
+    out, neng, nlists = [], 0, 0
+    for ops in opss:
+        e0, l0 = neng, nlists
+        for op in ops:
+            if op[0] == "new":
+                neng += 1; out.append(op)
+            elif op[0] == "nodes":
+                nlists += 1; out.append(op)
+            elif op[0] == "switch":
+                out.append(("switch", op[1] + e0))
+            elif op[0] == "use":
+                out.append(("use", op[1] + l0))
+            else:
+                out.append(op)
+    return out
+
+
+def fails_in_fresh_process(ops):
+    """does this interleaving, run alone in a fresh interpreter, differ from the model AND from fresh-process engines?"""
+    try:
+        pr = subprocess.run([common.PY, os.path.join(common.VERIF, "harness", "fresh_mhist.py")], input=json.dumps(ops), capture_output=True, text=True,
+                            timeout=600, env=dict(os.environ, LABELLA_REPO=common.REPO))
+        if pr.returncode != 0:
+            return False
+        r = json.loads(pr.stdout)
+    except Exception:
+        return False
+    if r["differ"]:
+        return True
+    if "same=fail" not in drive([r["line"]])[0]:
+        return False
+    return fresh_process_check(r["trace"]) is not None
+
+
 def gen_interleaving(rng, tier):
     """operations on 2-3 engines alive at the same time: each may be given a fresh list of nodes or a list object another engine holds (or
     held), in whatever order an in-place sort left it and whatever an earlier layout left in its node objects"""
@@ -207,15 +257,18 @@ def run_c06(tier, seed, rep, only_prop=False, scale=1):
         lines.append("perm|%s|%s" % (r1[0][1], r2[0][1])); metas.append({"kind": "perm", "labels": labelsA, "perm": perm, "opts": o, "mode": mode})
     # several engines alive at once, sharing list objects and node objects (EngineT.MWorld): equality with the transliteration after every
     # compute, and — the property itself — every compute reports what a fresh engine reports for the same options and data
+    earlier = []
     for k in range(common.count(tier, 80, 1500) * scale):
         ops = gen_interleaving(rng, tier)
-        meta = {"kind": "mhist", "ops": ops, "mode": "exact"}
+        meta = {"kind": "mhist", "ops": ops, "mode": "exact", "_earlier": list(earlier[-8:])}
+        earlier.append(ops)
         try:
             line, differ = I.run_mhist(ops)
         except RecursionError:
             rep.count("recursion-error(F3)"); continue
         except Exception as e:
             rep.prop_fail.append(("Force raised %s in an interleaving of several engines: %s" % (type(e).__name__, e), {"case": meta})); continue
+        meta["_trace"] = [dict(t) for t in I._state.get("mhist_trace", [])]
         if differ:
             j, eng, want, got = differ[0]
             rep.prop_fail.append(("C06: compute no. %d (engine %d) of this interleaving of several engines reports something else than a fresh engine with the same options and data" % (j, eng),
@@ -234,8 +287,27 @@ def run_c06(tier, seed, rep, only_prop=False, scale=1):
         if f["_cmd"] == "mhist":
             rep.case(line, nontrivial=int(f["engines"]) > 1 and int(f["computes"]) > 1, sample={"case": {"kind": "mhist", "ops": meta["ops"]}, "driver": ans} if rep.dist.get("mhist", 0) < 2 else None)
             rep.count("mhist"); rep.count("mhist same=" + f["same"]); rep.count("mhist engines=" + f["engines"]); rep.count("mhist list-reordered=" + f["reordered"])
-            if f["same"] != "ok" and not only_prop:
-                rep.corr_fail.append(("real Force/Node objects and the multi-engine transliteration (EngineT.MWorld) differ after a compute of this interleaving: " + ans, payload))
+            trace = meta.pop("_trace", [])
+            if f["same"] == "ok":
+                meta.pop("_earlier", None)
+            if f["same"] != "ok":
+                # does the engine disagree with the model because of what ran EARLIER IN THIS PROCESS (module-level state another engine left)?
+                # A fresh engine in this process would share that state; ask a fresh interpreter for each compute of the interleaving
+                bad = fresh_process_check(trace)
+                prelude = meta.pop("_earlier", [])
+                if bad and not fails_in_fresh_process(meta["ops"]):
+                    # the cause lies in what ran earlier in this process: make the failing input self-contained by putting the preceding
+                    # interleavings in front (as one interleaving over more engines); if even that does not reproduce it, no failing input
+                    whole = concat_interleavings(prelude + [meta["ops"]])
+                    if fails_in_fresh_process(whole):
+                        meta = {"kind": "mhist", "ops": whole, "mode": "exact"}
+                    else:
+                        bad = None
+                if bad:
+                    rep.prop_fail.append(("C06: compute no. %d (engine %d) of this interleaving reports something else than an engine with the same options and data in a FRESH interpreter process" % bad[:2],
+                                          {"case": meta, "compute_no": bad[0], "fresh_process": bad[2][:1500], "got": bad[3][:1500], "driver_answer": ans}))
+                elif not only_prop:
+                    rep.corr_fail.append(("real Force/Node objects and the multi-engine transliteration (EngineT.MWorld) differ after a compute of this interleaving: " + ans, payload))
             continue
         if f["_cmd"] == "perm":
             rep.case(line, nontrivial=True, sample=None)
@@ -283,6 +355,10 @@ def run(pid, tier, seed, replay=None):
                 print("replay: raised", type(e).__name__, e); print("VIOLATION property=%s replay=%s" % (pid, replay)); return 1
             if differ:
                 print("replay: compute no. %d differs from a fresh engine" % differ[0][0]); print("VIOLATION property=%s replay=%s" % (pid, replay)); return 1
+            if "same=fail" in drive([line])[0]:
+                bad = fresh_process_check([dict(t) for t in I._state.get("mhist_trace", [])])
+                if bad:
+                    print("replay: compute no. %d differs from an engine in a fresh process" % bad[0]); print("VIOLATION property=%s replay=%s" % (pid, replay)); return 1
         elif m["kind"] == "history":
             line = I.run_history([tuple(o) if not isinstance(o, tuple) else o for o in m["ops"]], m["mode"])[m["compute_no"]][0]
         else:
